@@ -65,7 +65,7 @@ class TimePlugin:
                         raise Unsupported("float argument of timedelta")
                     # a / c as a float microsecond count: exact when divisible (|a| < 2**53), otherwise the
                     # constructor rounds half-even -> only the divisible case is modelled
-                    ex.oblige(st, f"timedelta-exact-microseconds@{ex.cur_line}", z3.And(a % cc == 0, a < 2 ** 53, a > -(2 ** 53)), "safety")
+                    ex.oblige(st, f"timedelta-exact-microseconds@{ex.cur_line}", z3.And(a % cc == 0, a < 2 ** 53, a > -(2 ** 53)), "model")
                     us = us + a / cc
                 else:
                     us = us + ex.as_int(v, st) * mult
